@@ -13,6 +13,18 @@ COMMON_NOTE = ('Trusted: Lean 4.33 kernel with axioms propext/Classical.choice/Q
 
 # property -> (claimed?, technique, level text, design ref, extra note)
 CLAIMS = {
+    'C01': ('Lean 4 theorems on the regenerated model: per module `is_valid = (validate returned a non-empty value)` (case analysis), `validate` raises only ValidationError subclasses and returns a non-empty string (Std.Do mvcgen verification conditions + lemma library); differential run; failing-input search incl. non-strings',
+            'Proof per module listed in obligations/C01.json, over all strings, all option values and all dates, on definitions regenerated from the current '
+            'source: family C01v (is_valid/validate agreement) for 191 modules, C01c (no foreign exception) and C01n (non-empty result) for the modules whose '
+            'verification conditions the tactic closes (listed; the others are covered by the search only). Non-string arguments are outside the model '
+            '(search only).', '§4 C01, §8', ''),
+    'C04': ('Lean 4 theorems on the regenerated model (per module: compact x = compact y -> format x = format y); differential run; failing-input search',
+            'Proof of the presentation-independence half of C04 for the 96 modules listed in obligations/C04.json (all strings, all format options); '
+            'that format(x) is accepted with the same identity is covered by the search only (stated as partial).', '§4 C04, §8', ''),
+    'C13': ('Lean 4 theorems on a hand-written state-machine model (sequential histories, arbitrary thread interleavings, heap non-interference of _find), runtime exploration of the real library (histories, container mutation, 2-16 threads, fresh-process references)',
+            'Proof for the model Spec.State (every finite history, every schedule and thread count); the tie to the implementation is the runtime exploration '
+            'tools/search/c13.py, which compares every call with a fresh process. CPython import-lock behaviour during concurrent first imports cannot be '
+            'exhibited by the model (named partial; one such defect is a known finding).', '§4 C13, §8', ''),
     'C03': ('Lean 4 theorems on the regenerated model (one per module: compact x = compact y -> validate x = validate y), differential model/CPython run, failing-input search',
             'Proof for every module whose theorem is listed in obligations/C03.json (statement over all pairs of strings and all option values, on the '
             'definition regenerated from the current source); the wrappers whose validate() cleans differently from compact() are covered by '
@@ -27,7 +39,7 @@ CLAIMS = {
     'C14': ('Lean 4 theorems on the regenerated clean()/_char_map (kernel evaluation over the whole table + list lemmas for all strings), differential run, exhaustive search over all code points',
             'Proof on the regenerated definitions: `Gen.util.clean s d = ok (cleanP s d)` for every string and delete set, table facts by kernel '
             'evaluation against the Unicode oracle tables, order/count/idempotence for all strings.', '§4 C14', ''),
-    'C18__': ('Lean 4 theorems on a hand-written model of the WSGI script (escape safety/injectivity, page structure, status 200 under stated assumptions), differential run, in-process search on the real application',
+    'C18': ('Lean 4 theorems on a hand-written model of the WSGI script (escape safety/injectivity, page structure, status 200 under stated assumptions), differential run, in-process search on the real application',
             'Proof on the hand-written model Spec.Wsgi; tie = tools/corr/wsgi.py (escape, template formatting, format(), application end-to-end with '
             'synthetic module tables). parse_qs and the WSGI server are outside the model (named partial).', '§4 C18', ''),
 }
